@@ -7,16 +7,17 @@ namespace Ipv8.C18
 open VState
 
 /-- the invariant of the verifier's bookkeeping, on the components that matter -/
-structure Inv5 (n : Nat) (un : List Nat) (pend : List (Nat × Int)) (rel : Rel) (log : List (Nat × Nat)) : Prop where
+structure Inv5 (n : Nat) (un : List Nat) (pend : List (Nat × Int)) (rel : Rel) (log : List (Nat × Nat))
+    (drop : List Nat) : Prop where
   un_nodup : un.Nodup
   un_lt : ∀ id ∈ un, id < n
   pend : ∀ e ∈ pend, (e.2 < 0 → e.1 ∈ un) ∧ (0 ≤ e.2 → n ≤ e.1)
   rel : rel = aggregate (log.map Prod.snd)
   log_nodup : (log.map Prod.fst).Nodup
   log_lt : ∀ id ∈ log.map Prod.fst, id < n ∧ id ∉ un
-  cover : ∀ id, id < n → id ∈ un ∨ id ∈ log.map Prod.fst
+  cover : ∀ id, id < n → id ∈ un ∨ id ∈ log.map Prod.fst ∨ id ∈ drop
 
-def VInv (s : VState) : Prop := Inv5 s.n s.unanswered s.pending s.relmap s.log
+def VInv (s : VState) : Prop := Inv5 s.n s.unanswered s.pending s.relmap s.log s.dropped
 
 theorem aggregate_snoc (l : List Nat) (r : Nat) : aggregate (l ++ [r]) = (aggregate l).bump r := by
   simp [aggregate, List.foldl_append]
@@ -59,11 +60,12 @@ theorem inv_onTimeout (s : VState) (h : VInv s) (id : Nat) : VInv (s.onTimeout i
 
 /-- completions / liar do not matter for the invariant -/
 theorem inv_congr {s s' : VState} (h : VInv s) (h1 : s'.n = s.n) (h2 : s'.unanswered = s.unanswered)
-    (h3 : s'.pending = s.pending) (h4 : s'.relmap = s.relmap) (h5 : s'.log = s.log) : VInv s' := by
-  unfold VInv; rw [h1, h2, h3, h4, h5]; exact h
+    (h3 : s'.pending = s.pending) (h4 : s'.relmap = s.relmap) (h5 : s'.log = s.log)
+    (h6 : s'.dropped = s.dropped) : VInv s' := by
+  unfold VInv; rw [h1, h2, h3, h4, h5, h6]; exact h
 
 theorem inv_afterAnswer (s : VState) (h : VInv s) (id' r : Nat) (hc : Int) (hmem : (id', hc) ∈ s.pending) :
-    VInv (s.afterAnswer id' r hc) := by
+    VInv (s.afterAnswer id' r hc).1 := by
   have hp := h.pend _ hmem
   unfold afterAnswer
   simp only []
@@ -71,31 +73,48 @@ theorem inv_afterAnswer (s : VState) (h : VInv s) (id' r : Nat) (hc : Int) (hmem
   · rw [if_pos hneg]
     have hin : id' ∈ s.unanswered := hp.1 hneg
     have hnl : id' ∉ s.log.map Prod.fst := fun hl => (h.log_lt _ hl).2 hin
-    refine ⟨h.un_nodup.erase _, fun x hx => h.un_lt x (List.mem_of_mem_erase hx), ?_, ?_, ?_, ?_, ?_⟩
-    · intro e he
+    have hpend : ∀ e ∈ s.pending.filter (fun e => e.1 != id'),
+        (e.2 < 0 → e.1 ∈ s.unanswered.erase id') ∧ (0 ≤ e.2 → s.n ≤ e.1) := by
+      intro e he
       have he' := List.mem_filter.mp he
       have hne : e.1 ≠ id' := by simpa using he'.2
       exact ⟨fun hv => (List.mem_erase_of_ne hne).mpr ((h.pend e he'.1).1 hv), (h.pend e he'.1).2⟩
-    · show s.relmap.bump r = aggregate ((s.log ++ [(id', r)]).map Prod.snd)
-      rw [List.map_append, List.map_singleton, aggregate_snoc, ← h.rel]
-    · show ((s.log ++ [(id', r)]).map Prod.fst).Nodup
-      rw [List.map_append, List.map_singleton]
-      exact List.Nodup.append h.log_nodup (List.nodup_singleton _) (by
-        intro a ha hb
-        simp only [List.mem_singleton] at hb
-        exact hnl (hb ▸ ha))
-    · intro x hx
-      have hx' : x ∈ s.log.map Prod.fst ∨ x = id' := by
-        simpa [List.map_append] using hx
-      rcases hx' with hx' | rfl
-      · exact ⟨(h.log_lt x hx').1, fun hm => (h.log_lt x hx').2 (List.mem_of_mem_erase hm)⟩
-      · exact ⟨h.un_lt _ hin, fun hm => ((List.Nodup.mem_erase_iff h.un_nodup).mp hm).1 rfl⟩
-    · intro x hx
-      by_cases hxe : x = id'
-      · right; subst hxe; simp [List.map_append]
-      · rcases h.cover x hx with hu | hl
-        · left; exact (List.mem_erase_of_ne hxe).mpr hu
-        · right; simp only [List.map_append, List.mem_append]; left; exact hl
+    by_cases hr : r ≤ 3
+    · rw [if_pos hr]
+      refine ⟨h.un_nodup.erase _, fun x hx => h.un_lt x (List.mem_of_mem_erase hx), hpend, ?_, ?_, ?_, ?_⟩
+      · show s.relmap.bump r = aggregate ((s.log ++ [(id', r)]).map Prod.snd)
+        rw [List.map_append, List.map_singleton, aggregate_snoc, ← h.rel]
+      · show ((s.log ++ [(id', r)]).map Prod.fst).Nodup
+        rw [List.map_append, List.map_singleton]
+        exact List.Nodup.append h.log_nodup (List.nodup_singleton _) (by
+          intro a ha hb
+          simp only [List.mem_singleton] at hb
+          exact hnl (hb ▸ ha))
+      · intro x hx
+        have hx' : x ∈ s.log.map Prod.fst ∨ x = id' := by
+          simpa [List.map_append] using hx
+        rcases hx' with hx' | rfl
+        · exact ⟨(h.log_lt x hx').1, fun hm => (h.log_lt x hx').2 (List.mem_of_mem_erase hm)⟩
+        · exact ⟨h.un_lt _ hin, fun hm => ((List.Nodup.mem_erase_iff h.un_nodup).mp hm).1 rfl⟩
+      · intro x hx
+        by_cases hxe : x = id'
+        · right; left; subst hxe; simp [List.map_append]
+        · rcases h.cover x hx with hu | hl | hd
+          · left; exact (List.mem_erase_of_ne hxe).mpr hu
+          · right; left; simp only [List.map_append, List.mem_append]; left; exact hl
+          · right; right; exact hd
+    · rw [if_neg hr]
+      refine ⟨h.un_nodup.erase _, fun x hx => h.un_lt x (List.mem_of_mem_erase hx), hpend, h.rel, h.log_nodup,
+        ?_, ?_⟩
+      · intro x hx
+        exact ⟨(h.log_lt x hx).1, fun hm => (h.log_lt x hx).2 (List.mem_of_mem_erase hm)⟩
+      · intro x hx
+        by_cases hxe : x = id'
+        · right; right; subst hxe; show x ∈ s.dropped ++ [x]; simp
+        · rcases h.cover x hx with hu | hl | hd
+          · left; exact (List.mem_erase_of_ne hxe).mpr hu
+          · right; left; exact hl
+          · right; right; show x ∈ s.dropped ++ [id']; simp [hd]
   · rw [if_neg hneg]
     have hge : s.n ≤ id' := hp.2 (by omega)
     have hnot : id' ∉ s.unanswered := fun hm => by have := h.un_lt _ hm; omega
@@ -108,13 +127,13 @@ theorem inv_afterAnswer (s : VState) (h : VInv s) (id' r : Nat) (hc : Int) (hmem
       rw [herase]
       exact h.pend e (List.mem_of_mem_filter he)
     split
-    · exact inv_congr base rfl rfl rfl rfl rfl
+    · exact inv_congr base rfl rfl rfl rfl rfl rfl
     · exact base
 
 theorem inv_finish (s : VState) (h : VInv s) (honesty : Option Nat) : VInv (s.finish honesty) := by
   unfold finish
   split
-  · exact inv_congr h rfl rfl rfl rfl rfl
+  · exact inv_congr h rfl rfl rfl rfl rfl rfl
   · exact inv_sendNext s h honesty
 
 theorem inv_onResponse (s : VState) (h : VInv s) (id r : Nat) (honesty : Option Nat) :
@@ -128,7 +147,9 @@ theorem inv_onResponse (s : VState) (h : VInv s) (id r : Nat) (honesty : Option 
       have := List.find?_some hfind
       simpa using this
     subst hid
-    exact inv_finish _ (inv_afterAnswer s h id' r hc hmem) honesty
+    split
+    · exact inv_finish _ (inv_afterAnswer s h id' r hc hmem) honesty
+    · exact inv_afterAnswer s h id' r hc hmem
 
 theorem inv_run (n : Nat) (evs : List VEvent) : VInv (run n evs) := by
   unfold run
@@ -163,7 +184,7 @@ theorem run_n (n : Nat) (evs : List VEvent) : (run n evs).n = n := by
   | cons e tl ih => intro s; rw [List.foldl_cons, ih, step_n]
 
 /-- when nothing is unanswered, the counted challenges are exactly 0 … n-1, each once -/
-theorem log_perm_range (s : VState) (h : VInv s) (hdone : s.unanswered = []) :
+theorem log_perm_range (s : VState) (h : VInv s) (hdone : s.unanswered = []) (hnd : s.dropped = []) :
     (s.log.map Prod.fst).Perm (List.range s.n) := by
   rw [List.perm_ext_iff_of_nodup h.log_nodup List.nodup_range]
   intro a
@@ -171,15 +192,18 @@ theorem log_perm_range (s : VState) (h : VInv s) (hdone : s.unanswered = []) :
   constructor
   · intro ha; exact (h.log_lt a ha).1
   · intro ha
-    rcases h.cover a ha with hu | hl
+    rcases h.cover a ha with hu | hl | hd
     · rw [hdone] at hu; simp at hu
     · exact hl
+    · rw [hnd] at hd; simp at hd
 
-/-- state reached by honest answers: invariant + every counted answer is the prover's answer + every aggregate handed
-    to the completion callback is empty (liar path) or the complete profile -/
+/-- state reached by honest answers: invariant + every counted answer is the prover's answer + no challenge was lost
+    to a bad answer byte + every aggregate handed to the completion callback is empty (liar path) or the complete
+    profile -/
 structure Good (ans : Nat → Nat) (s : VState) : Prop where
   inv : VInv s
   honest : ∀ p ∈ s.log, p.2 = ans p.1
+  nodrop : s.dropped = []
   done : ∀ c ∈ s.completions, c = Rel.empty ∨ c = aggregate ((List.range s.n).map ans)
 
 theorem relmap_of_honest (ans : Nat → Nat) (s : VState) (h : VInv s) (hh : ∀ p ∈ s.log, p.2 = ans p.1) :
@@ -191,17 +215,25 @@ theorem relmap_of_honest (ans : Nat → Nat) (s : VState) (h : VInv s) (hh : ∀
   exact hh p hp
 
 theorem full_of_done (ans : Nat → Nat) (s : VState) (h : VInv s) (hh : ∀ p ∈ s.log, p.2 = ans p.1)
-    (hdone : s.unanswered = []) : s.relmap = aggregate ((List.range s.n).map ans) := by
+    (hdone : s.unanswered = []) (hnd : s.dropped = []) : s.relmap = aggregate ((List.range s.n).map ans) := by
   rw [relmap_of_honest ans s h hh]
-  exact aggregate_perm ((log_perm_range s h hdone).map ans)
+  exact aggregate_perm ((log_perm_range s h hdone hnd).map ans)
 
 theorem good_init (ans : Nat → Nat) (n : Nat) : Good ans (init n) :=
-  ⟨inv_init n, by simp [init], by simp [init]⟩
+  ⟨inv_init n, by simp [init], by simp [init], by simp [init]⟩
 
-theorem good_step (ans : Nat → Nat) (s : VState) (g : Good ans s) (e : VEvent)
+theorem afterAnswer_goes (s : VState) (id r : Nat) (hc : Int) (hr : hc < 0 → r ≤ 3) :
+    (s.afterAnswer id r hc).2 = true := by
+  unfold afterAnswer
+  simp only []
+  split
+  · rename_i hneg; rw [if_pos (hr hneg)]
+  · split <;> rfl
+
+theorem good_step (ans : Nat → Nat) (hans : ∀ id, ans id ≤ 3) (s : VState) (g : Good ans s) (e : VEvent)
     (he : ∀ id r h, e = VEvent.response id r h → id < s.n → r = ans id) : Good ans (step s e) := by
   cases e with
-  | timeout id => exact ⟨inv_onTimeout s g.inv id, g.honest, g.done⟩
+  | timeout id => exact ⟨inv_onTimeout s g.inv id, g.honest, g.nodrop, g.done⟩
   | response id r hon =>
     have hinv := inv_onResponse s g.inv id r hon
     simp only [step] at hinv ⊢
@@ -216,44 +248,67 @@ theorem good_step (ans : Nat → Nat) (s : VState) (g : Good ans s) (e : VEvent)
         have := List.find?_some hfind
         simpa using this
       subst hid
+      have hrle : hc < 0 → r ≤ 3 := by
+        intro hneg
+        have hin := (g.inv.pend _ hmem).1 hneg
+        rw [he id' r hon rfl (g.inv.un_lt _ hin)]
+        exact hans id'
+      have hgo := afterAnswer_goes s id' r hc hrle
+      rw [hgo] at hinv ⊢
+      simp only [if_true] at hinv ⊢
       have hA := inv_afterAnswer s g.inv id' r hc hmem
-      -- the log and completions after the answer
-      have hlogA : ∀ p ∈ (s.afterAnswer id' r hc).log, p.2 = ans p.1 := by
+      -- the log, dropped list and completions after the answer
+      have hlogA : ∀ p ∈ (s.afterAnswer id' r hc).1.log, p.2 = ans p.1 := by
         intro p hp
         unfold afterAnswer at hp
         simp only [] at hp
         split at hp
         · rename_i hneg
+          rw [if_pos (hrle hneg)] at hp
           simp only [List.mem_append, List.mem_singleton] at hp
           rcases hp with hp | rfl
           · exact g.honest p hp
           · have hin := (g.inv.pend _ hmem).1 hneg
             exact he id' r hon rfl (g.inv.un_lt _ hin)
         · split at hp <;> exact g.honest p hp
-      have hnA : (s.afterAnswer id' r hc).n = s.n := by
+      have hdropA : (s.afterAnswer id' r hc).1.dropped = [] := by
+        unfold afterAnswer
+        simp only []
+        split
+        · rename_i hneg; rw [if_pos (hrle hneg)]; exact g.nodrop
+        · split <;> exact g.nodrop
+      have hnA : (s.afterAnswer id' r hc).1.n = s.n := by
         unfold afterAnswer; simp only []; repeat' split <;> try rfl
-      have hcA : ∀ c ∈ (s.afterAnswer id' r hc).completions,
+      have hcA : ∀ c ∈ (s.afterAnswer id' r hc).1.completions,
           c = Rel.empty ∨ c = aggregate ((List.range s.n).map ans) := by
         intro c hc'
         unfold afterAnswer at hc'
         simp only [] at hc'
         split at hc'
-        · exact g.done c hc'
+        · rename_i hneg
+          rw [if_pos (hrle hneg)] at hc'
+          exact g.done c hc'
         · split at hc'
           · simp only [List.mem_append, List.mem_singleton] at hc'
             rcases hc' with hc' | rfl
             · exact g.done c hc'
             · left; rfl
           · exact g.done c hc'
-      refine ⟨hinv, ?_, ?_⟩
+      refine ⟨hinv, ?_, ?_, ?_⟩
       · intro p hp
         unfold finish at hp
         split at hp
         · exact hlogA p hp
-        · have : ((s.afterAnswer id' r hc).sendNext hon).log = (s.afterAnswer id' r hc).log := by
+        · have : ((s.afterAnswer id' r hc).1.sendNext hon).log = (s.afterAnswer id' r hc).1.log := by
             unfold sendNext; repeat' split <;> try rfl
           rw [this] at hp; exact hlogA p hp
-      · have hnF : ((s.afterAnswer id' r hc).finish hon).n = s.n := by
+      · unfold finish
+        split
+        · exact hdropA
+        · have : ((s.afterAnswer id' r hc).1.sendNext hon).dropped = (s.afterAnswer id' r hc).1.dropped := by
+            unfold sendNext; repeat' split <;> try rfl
+          rw [this]; exact hdropA
+      · have hnF : ((s.afterAnswer id' r hc).1.finish hon).n = s.n := by
           rw [← hnA]; unfold finish sendNext; repeat' split <;> try rfl
         rw [hnF]
         intro c hc'
@@ -264,14 +319,16 @@ theorem good_step (ans : Nat → Nat) (s : VState) (g : Good ans s) (e : VEvent)
           rcases hc' with hc' | rfl
           · exact hcA c hc'
           · right
-            have hd : (s.afterAnswer id' r hc).unanswered = [] := by simpa using hempty
+            have hd : (s.afterAnswer id' r hc).1.unanswered = [] := by simpa using hempty
             rw [← hnA]
-            exact full_of_done ans _ hA hlogA hd
-        · have : ((s.afterAnswer id' r hc).sendNext hon).completions = (s.afterAnswer id' r hc).completions := by
+            exact full_of_done ans _ hA hlogA hd hdropA
+        · have : ((s.afterAnswer id' r hc).1.sendNext hon).completions
+              = (s.afterAnswer id' r hc).1.completions := by
             unfold sendNext; repeat' split <;> try rfl
           rw [this] at hc'; exact hcA c hc'
 
-theorem good_foldl (ans : Nat → Nat) (n : Nat) : ∀ (evs : List VEvent) (s : VState), s.n = n → Good ans s →
+theorem good_foldl (ans : Nat → Nat) (hans : ∀ id, ans id ≤ 3) (n : Nat) : ∀ (evs : List VEvent) (s : VState),
+    s.n = n → Good ans s →
     (∀ id r h, VEvent.response id r h ∈ evs → id < n → r = ans id) → Good ans (evs.foldl step s) := by
   intro evs
   induction evs with
@@ -280,14 +337,14 @@ theorem good_foldl (ans : Nat → Nat) (n : Nat) : ∀ (evs : List VEvent) (s : 
     intro s hn g hon'
     rw [List.foldl_cons]
     apply ih (step s e) (by rw [step_n, hn])
-    · apply good_step ans s g e
+    · apply good_step ans hans s g e
       intro id r h heq hlt
       exact hon' id r h (by rw [heq]; simp) (by rw [← hn]; exact hlt)
     · intro id r h hm hlt
       exact hon' id r h (by simp [hm]) hlt
 
-theorem good_run (ans : Nat → Nat) (n : Nat) (evs : List VEvent)
+theorem good_run (ans : Nat → Nat) (hans : ∀ id, ans id ≤ 3) (n : Nat) (evs : List VEvent)
     (hon : ∀ id r h, VEvent.response id r h ∈ evs → id < n → r = ans id) : Good ans (run n evs) :=
-  good_foldl ans n evs (init n) rfl (good_init ans n) hon
+  good_foldl ans hans n evs (init n) rfl (good_init ans n) hon
 
 end Ipv8.C18
